@@ -7,10 +7,18 @@ From Coq Require Import List ZArith NArith Bool.
 Import ListNotations.
 From PyccoloV Require Import model.Sandbox proofs.SandboxProofs.
 
-Theorem C15_result_partial : forall L G p, user_map L -> user_map G -> user_prog p -> raises_after p = None ->
+(* when every supplied name is a parameter of the sandbox function (none is declared global by the program, none is a keyword
+   or a non-identifier): the very mapping of the reference *)
+Theorem C15_result_partial : forall L G p, user_map L -> user_map G -> user_prog p -> plain_locals L p -> raises_after p = None ->
   exec_model L G p = (Some (fst (spec_result L G p)), L, snd (spec_result L G p)).
 Proof. exact exec_refines. Qed.
 Print Assumptions C15_result_partial.
+(* in general (supplied names the program declares global, or that cannot be parameter names, are handed back unchanged): the
+   result holds, name by name, what the reference holds *)
+Theorem C15_result_passthrough : forall L G p, user_map L -> user_map G -> user_prog p -> wf_prog p -> raises_after p = None ->
+  exists res, exec_model L G p = (Some res, L, snd (spec_result L G p)) /\ forall k, aget res k = aget (fst (spec_result L G p)) k.
+Proof. exact exec_passthrough. Qed.
+Print Assumptions C15_result_passthrough.
 (* what is missing for the full statement: programs that bind the names `__` or `builtins` (next theorem) *)
 Theorem C15_result_refuted :
   exists p, raises_after p = None /\
@@ -32,12 +40,27 @@ Print Assumptions C15_clean.
 
 Example C15_nonvacuous :
   let L : assoc := [(10%N, 1%Z); (11%N, 2%Z)] in let G : assoc := [(20%N, 7%Z)] in
-  let p := {| ops := [Bind 12%N 3%Z; Del 10%N; GBind 21%N 4%Z; Bind 11%N 9%Z]; raises_after := None |} in
-  user_map L /\ user_map G /\ user_prog p /\
+  let p := {| ops := [Bind 12%N 3%Z; Del 10%N; GBind 21%N 4%Z; Bind 11%N 9%Z]; raises_after := None; gdecl := [21%N] |} in
+  user_map L /\ user_map G /\ user_prog p /\ plain_locals L p /\
   exec_model L G p = (Some [(12%N, 3%Z); (11%N, 9%Z)], L, [(20%N, 7%Z); (21%N, 4%Z)]).
 Proof.
   cbn. repeat split; try (vm_compute; reflexivity).
   - intros k [<-|[<-|[]]]; discriminate.
   - intros k [<-|[]]; discriminate.
   - intros o [<-|[<-|[<-|[<-|[]]]]]; discriminate.
+  - intros k [<-|[<-|[]]]; reflexivity.
+Qed.
+(* `global counter; counter = 7` with a supplied local `counter` (name 10), next to a supplied key 'class' (name 30): the local
+   `counter` and 'class' come back unchanged, the global is bound (before 028d715: SyntaxError in both cases) *)
+Example C15_passthrough_nonvacuous :
+  let L : assoc := [(10%N, 0%Z); (30%N, 5%Z); (11%N, 2%Z)] in
+  let p := {| ops := [GBind 10%N 7%Z; Bind 11%N 3%Z]; raises_after := None; gdecl := [10%N] |} in
+  user_map L /\ user_prog p /\ wf_prog p /\ ~ plain_locals L p /\
+  exec_model L [] p = (Some [(11%N, 3%Z); (10%N, 0%Z); (30%N, 5%Z)], L, [(10%N, 7%Z)]).
+Proof.
+  cbn. repeat split; try (vm_compute; reflexivity).
+  - intros k [<-|[<-|[<-|[]]]]; discriminate.
+  - intros o [<-|[<-|[]]]; discriminate.
+  - intros o [<-|[<-|[]]]; cbn; [now left|split; [reflexivity|intros [H|[]]; discriminate]].
+  - intros H. specialize (H 10%N (or_introl eq_refl)). vm_compute in H. discriminate.
 Qed.
